@@ -14,6 +14,8 @@ pub mod c06_order;
 pub mod c07_flags;
 pub mod layers;
 pub mod rast;
+pub mod c08_proj;
+pub mod c09_mat;
 pub mod c11_buf;
 pub mod c12_tex;
 pub mod c13_pnm;
@@ -36,6 +38,8 @@ pub fn lookup(prop: &str) -> Option<MonFn> {
         "C05" => c05_frag::run,
         "C06" => c06_order::run,
         "C07" => c07_flags::run,
+        "C08" => c08_proj::run,
+        "C09" => c09_mat::run,
         "C11" => c11_buf::run,
         "C12" => c12_tex::run,
         "C13" => c13_pnm::run,
